@@ -266,8 +266,9 @@ HRPread(accrec_t *access_rec, int32 length, void *data)
     if (length == 0)
         length = info->image_size;
 
-    /* Copy data from buffer */
-    DFgetcomp(info->fid, info->tag, info->ref, data, info->xdim, info->ydim, info->scheme);
+    /* Decompress the image from the file */
+    if (DFgetcomp(info->fid, info->tag, info->ref, data, info->xdim, info->ydim, info->scheme) == FAIL)
+        HGOTO_ERROR(DFE_READERROR, FAIL);
 
     ret_value = length;
 
@@ -306,9 +307,10 @@ HRPwrite(accrec_t *access_rec, int32 length, const void *data)
     if (length == 0)
         length = info->image_size;
 
-    /* Copy data to buffer */
-    DFputcomp(info->fid, info->tag, info->ref, data, info->xdim, info->ydim, NULL, NULL, info->scheme,
-              &(info->cinfo));
+    /* Compress the image into the file */
+    if (DFputcomp(info->fid, info->tag, info->ref, data, info->xdim, info->ydim, NULL, NULL, info->scheme,
+                  &(info->cinfo)) == FAIL)
+        HGOTO_ERROR(DFE_WRITEERROR, FAIL);
 
     ret_value = length; /* return length of bytes written */
 
